@@ -15,7 +15,7 @@ import (
 // C01: several fresh instances of the real IndexedLachesis process one event set in different
 // parents-first orders.
 // input : salt seal nv (id w)* k (kind:seed)*k ; e id cr seq frame parents... ; ...
-// obs   : per instance  I <Process codes in that instance's order, one digit each> B... L epoch ldf
+// obs   : per instance  I <number of fed events whose Process failed> B... L epoch ldf
 //         (blocks as in C10: B epoch frame atropos sealed ncheaters cheaters...)
 func c01Gen(r *rand.Rand, n int, tier string, emit func(input ...string)) {
 	maxEv := 200
@@ -90,8 +90,14 @@ func c01Run(in []string) []string {
 		codes := make([]byte, 0, len(order))
 		for _, j := range order {
 			ev := s.Evs[j]
-			e := refh.EventOf(s, ev, ids, 1)
-			if e == nil || ev.Cr >= len(s.VIDs) {
+			if ev.Ep != inst.Epoch() {
+				// the epoch of this event is over (sealed by an earlier event of this order) or not
+				// yet open: the application does not feed it
+				vu.Stat("not_fed_after_seal")
+				continue
+			}
+			e := refh.EventOf(s, ev, ids, ev.Ep)
+			if e == nil {
 				codes = append(codes, '2')
 				continue
 			}
@@ -105,10 +111,13 @@ func c01Run(in []string) []string {
 				break
 			}
 		}
-		if len(codes) == 0 {
-			codes = append(codes, '-')
+		rej := 0
+		for _, c := range codes {
+			if c != '0' {
+				rej++
+			}
 		}
-		obs = append(obs, "I", string(codes))
+		obs = append(obs, "I", strconv.Itoa(rej))
 		obs = append(obs, inst.BlockTokens(name)...)
 		if i == 0 {
 			vu.StatN("blocks", len(inst.Blocks))
